@@ -1,8 +1,10 @@
 (* Executor ops for C10 (same names in goexec/state.go).
    trk.hist <pool> <script>: pool = [ desc* ] (wire format of Exec/SegExec.v, id = position),
      script = [ call* ], call = [0 i] ProcessDescriptor(pool[i]) | [1 i] Close(pool[i]) | [2] Open();
-     reply = [ obs* ], obs = [ [closed ids] err [0 [Open() ids]] ] | [ [closed ids] err [2] ] (Open panicked)
+     reply = [ obs* ], obs = [ [closed ids] err [0 [Open() ids]] m ] | [ [closed ids] err [2] m ] (Open panicked)
                             | [2] (the call panicked); the run stops at the first panic.
+     m = 1 when a getter of some pool descriptor changed during the run so far (goexec snapshots them;
+     the tracker only reads its arguments, so the model always answers 0).
    spec.trk <pool> <script> <observations>: the trace checker of Spec/Trackers.v on observations in the
      reply format above; reply [] = accepted, [k code] = call k violates clause `code`. *)
 From Gots Require Import Base.Prelude Exec.ExecBase Exec.SegExec Model.SegDesc Model.State Spec.Trackers.
@@ -26,7 +28,7 @@ Fixpoint calls_of_vals (l : list val) : option (list State.call) :=
 Definition val_of_obs (o : option State.obs) : val :=
   match o with
   | None => VL [VI 2%Z]
-  | Some o => VL [vids (State.o_closed o); vn (State.o_err o); vres vids (State.o_open o)]
+  | Some o => VL [vids (State.o_closed o); vn (State.o_err o); vres vids (State.o_open o); VI 0%Z]
   end.
 
 Definition tcall_of_call (c : State.call) : Trackers.tcall :=
@@ -45,9 +47,9 @@ Fixpoint ns_of_vals (l : list val) : option (list N) :=
 Definition tobs_of_val (v : val) : option Trackers.tobs :=
   match v with
   | VL [VI 2%Z] => Some (Trackers.mkTobs [] 0 None)
-  | VL [VL cl; VI e; VL [VI 2%Z]] =>
+  | VL [VL cl; VI e; VL [VI 2%Z]] | VL [VL cl; VI e; VL [VI 2%Z]; VI _] =>
     match ns_of_vals cl with Some c => Some (Trackers.mkTobs c (zN e) None) | None => None end
-  | VL [VL cl; VI e; VL [VI 0%Z; VL op]] =>
+  | VL [VL cl; VI e; VL [VI 0%Z; VL op]] | VL [VL cl; VI e; VL [VI 0%Z; VL op]; VI _] =>
     match ns_of_vals cl, ns_of_vals op with
     | Some c, Some o => Some (Trackers.mkTobs c (zN e) (Some o))
     | _, _ => None
